@@ -18,6 +18,27 @@ SPECS = ['é 1', '>=1.0.0  <2.0.0', '^', '~', '>=', '1.x || ', '|| 1', '1 - ', '
          ' 1.0.0', '1.0.0 ', '０.１.２', '1..2', '.1', '1.', '-1', '+1', '1.0.0+', '>=1.0.0,', ',', '=', '==', '~=1', '!=', '<>1', 'latest', 'LATEST', 'nexK']
 
 
+def straddles(base):
+    """base with one character replaced by a 2-byte and by a 3-byte character, at every position: whatever byte offset a
+    piece of code slices or splits at, some variant has a multi-byte character straddling it"""
+    out = []
+    for i in range(len(base)):
+        out.append(base[:i] + 'é' + base[i + 1:])
+        out.append(base[:i] + '✓' + base[i + 1:])
+    return out
+
+
+STRADDLE_BASES = {
+    'go_mod': ['v0.14.0-0.20210101000000-abcdefabcdef', 'v0.0.0-20210101000000-abcdefabcdef', 'v2.0.0+incompatible'],
+    'package_json': ['>=1.0.0 <2.0.0', '1.0.0 - 2.0.0', '^1.2.3 || ~2.0.0'],
+    'pnpm_workspace': ['>=1.0.0 <2.0.0', '^1.2.3'],
+    'deno_json': ['^1.2.3'],
+    'cargo_toml': ['>=1.0.0, <2.0.0', '~1.2.3'],
+    'pyproject_toml': ['>=1.0,<2.0', '~=1.4.2'],
+    'github_actions': ['v4.1.2', '8f152de45cc393bb48ce5d89d36b731f54556e65'],
+}
+
+
 def damaged(rnd, tier):
     docs = []
     per = 60 if tier == 'quick' else 2500
@@ -36,7 +57,7 @@ def damaged(rnd, tier):
             docs.append((fmt, t))
         # every hostile spec once, planted where a version stands
         import re as _re
-        for spec in SPECS:
+        for spec in SPECS + [x for b in STRADDLE_BASES.get(fmt, []) for x in straddles(b)]:
             for _try in range(5):
                 t = g(rnd).text
                 cands = list(_re.finditer(r'[\^~>=<]*v?\d+\.\d+(\.\d+)?', t))
